@@ -141,6 +141,7 @@ where
         self.history.hash(state);
         self.timers_set.hash(state);
         self.network.hash(state);
+        self.crashed.hash(state);
     }
 }
 
@@ -157,6 +158,7 @@ where
             && self.history.eq(&other.history)
             && self.timers_set.eq(&other.timers_set)
             && self.network.eq(&other.network)
+            && self.crashed.eq(&other.crashed)
     }
 }
 
